@@ -76,6 +76,111 @@ def call_checker(b_old, b_new, params):
         return None, None, "%s: %s" % (type(e).__name__, str(e)[:100])
 
 
+# ------------------------------------------------------------------ forves adapter rendering
+META_ID = {"PUSHDEPLOYADDRESS": 0, "PUSHSIZE": 1, "PUSHLIB": 2, "PUSHIMMUTABLE": 3, "PUSH data": 4, "PUSH [tag]": 5,
+           "PUSH [$]": 6, "PUSH #[$]": 7}
+SEPARATORS = {"tag", "JUMPDEST", "JUMP", "JUMPI", "STOP", "RETURN", "REVERT", "INVALID", "SELFDESTRUCT", "LOG0", "LOG1", "LOG2",
+              "LOG3", "LOG4", "CALLDATACOPY", "CODECOPY", "EXTCODECOPY", "RETURNDATACOPY", "CALL", "STATICCALL", "DELEGATECALL",
+              "CREATE", "CREATE2", "ASSIGNIMMUTABLE", "GAS"}
+
+
+def expected_segments(pairs, storage_split):
+    """our own segmentation of a block for the external checker: list of segments (lists of normalized items)"""
+    seps = SEPARATORS | ({"SSTORE", "MSTORE", "MSTORE8"} if storage_split else set())
+    segs, cur = [], []
+    for n, v in pairs:
+        if n in seps:
+            if cur:
+                segs.append(cur)
+            cur = []
+            continue
+        if n == "PUSH0" or (n == "PUSH" and int(v, 16) == 0 and v == "0"):
+            cur.append(("PUSH", 0, 1))
+        elif n == "PUSH":
+            cur.append(("PUSH", int(v, 16), (len(v) + 1) // 2))
+        elif n in META_ID:
+            cur.append(("META", META_ID[n], 0 if v is None else str(v).lower()))
+        else:
+            cur.append((n,))
+    if cur:
+        segs.append(cur)
+    return segs
+
+
+def parse_forves_tokens(text):
+    toks = text.split(" ")
+    out = []
+    i = 0
+    while i < len(toks):
+        t = toks[i]
+        if t.startswith("PUSH") and t[4:].isdigit():
+            out.append(("PUSH", int(toks[i + 1], 16), int(t[4:])))
+            i += 2
+        elif t == "METAPUSH":
+            v = toks[i + 2]
+            out.append(("META", int(toks[i + 1]), 0 if v == "0x0" else v[2:].lower()))
+            i += 3
+        else:
+            out.append((t,))
+            i += 1
+    return out
+
+
+def check_adapter(b_old, b_new, params, viols, label):
+    """forves_format(old, new) must render every optimizable segment pair faithfully"""
+    import io
+    import contextlib
+    fv = drive.R.get("forves")
+    if fv is None:
+        import verification.forves_verification as fv
+        drive.R["forves"] = fv
+    t_old, t_new = b_old.to_plain(), b_new.to_plain()
+    p_old = [(bc.disasm, None if bc.value is None else str(bc.value)) for bc in b_old.instructions]
+    p_new = [(bc.disasm, None if bc.value is None else str(bc.value)) for bc in b_new.instructions]
+    if any(n == "PUSHLIB" for n, _ in p_old + p_new):
+        return
+    e_old, e_new = expected_segments(p_old, params.split_storage), expected_segments(p_new, params.split_storage)
+    seps = SEPARATORS | ({"SSTORE", "MSTORE", "MSTORE8"} if params.split_storage else set())
+    if [n for n, _ in p_old if n in seps] != [n for n, _ in p_new if n in seps]:
+        return            # different split instructions: the adapter refuses the pair, which is not a 'true'
+    vocab = set(fv.bytecode_vocab)
+    if any(len(it) == 1 and it[0] not in vocab for seg in e_old + e_new for it in seg) or len(e_old) != len(e_new):
+        _count("adapter_pairs_outside_vocabulary")
+        return
+    with contextlib.redirect_stdout(io.StringIO()), contextlib.redirect_stderr(io.StringIO()):
+        try:
+            text = fv.forves_format(t_old, t_new)
+        except Exception as e:
+            viols.append({"fingerprint": "forves adapter raises %s on a supported pair" % type(e).__name__,
+                          "witness": {"old": t_old[:300], "new": t_new[:300]}})
+            return
+    _count("adapter_renderings_checked")
+    if text is None:
+        viols.append({"fingerprint": "forves adapter fails to render a supported pair",
+                      "witness": {"old": t_old[:300], "new": t_new[:300], "label": label}})
+        return
+    lines = text.split("\n") if text else []
+    groups = [lines[i:i + 4] for i in range(0, len(lines), 4)]
+    if len(e_old) > 1:
+        _count("adapter_multi_segment_pairs")
+    if len(groups) != len(e_old):
+        viols.append({"fingerprint": "forves adapter renders %s groups than optimizable segments" % (
+            "fewer" if len(groups) < len(e_old) else "more"),
+            "witness": {"old": t_old[:300], "new": t_new[:300], "groups": len(groups), "segments": len(e_old)}})
+        return
+    for k, (g, so, sn) in enumerate(zip(groups, e_old, e_new)):
+        try:
+            ok = g[0] == "#" and parse_forves_tokens(g[1]) == sn and parse_forves_tokens(g[2]) == so and g[3].isdigit()
+        except Exception:
+            ok = False
+        if not ok:
+            cls = "segment %s rendered with the content of other segments" % ("k>0" if k else "0") \
+                if len(e_old) > 1 else "single segment rendered wrongly"
+            viols.append({"fingerprint": "forves adapter rendering is not faithful: " + cls,
+                          "witness": {"old": t_old[:300], "new": t_new[:300], "group": g[:3], "segment_index": k}})
+            return
+
+
 def handle(case):
     COUNTS.clear()
     drive.setup()
@@ -100,6 +205,7 @@ def handle(case):
     elif not eq:
         viols.append({"fingerprint": "checker(B,B) answers not-equal",
                       "witness": {"block": evm.to_plain_string(block), "reason": str(reason)[:200]}})
+    check_adapter(b0, copy.deepcopy(b0), params, viols, "reflexive")
     need, delta = evm.stack_effect(block)
     sample = None
     muts = mutants(block, rnd, case.get("n_mut", 5))
@@ -144,6 +250,8 @@ def handle(case):
         mblocks = drive.build_blocks(gen.to_items(mb))
         if len(mblocks) != 1:
             continue
+        if rnd.random() < 0.3:
+            check_adapter(b0, mblocks[0], params, viols, kind)
         eq, reason, exc = call_checker(b0, mblocks[0], params)
         _count("checker_calls_on_distinguishable_pairs")
         if exc:
@@ -195,6 +303,9 @@ def run():
                        "mutants_with_a_distinguishing_state": c.get("mutants_witnessed", 0),
                        "pairs_rejected_by_checker": c.get("rejected", 0), "pairs_accepted_by_checker": c.get("accepted", 0),
                        "checker_exceptions_on_pairs": c.get("checker_raises_on_pair", 0),
+                       "forves_adapter_renderings_checked": c.get("adapter_renderings_checked", 0),
+                       "forves_adapter_multi_segment_pairs": c.get("adapter_multi_segment_pairs", 0),
+                       "forves_adapter_pairs_outside_its_vocabulary": c.get("adapter_pairs_outside_vocabulary", 0),
                        "witnessed_pairs_per_mutator": {k[5:]: v for k, v in c.items() if k.startswith("kind ")},
                        "blocks_per_option_set": dict(col.by_group), "blocks_per_generator": dict(col.by_kind),
                        "budget_exceeded_cases": {k: v for k, v in col.stat.items() if k.startswith("budget_")}, "pool": st})
